@@ -4,6 +4,7 @@ package nsqd
 
 import (
 	"bytes"
+	"time"
 
 	"github.com/nsqio/nsq/internal/protocol"
 	"github.com/nsqio/nsq/internal/verifrt"
@@ -369,3 +370,102 @@ func verifC09Rdy() {
 // DPUB with any decimal delay: out-of-range is a FATAL E_INVALID (the body that follows on the wire
 // must not be parsed as commands), nothing is created; in range is accepted with the exact delay.
 func VerifC09_DpubDelayRange() { verifrt.Atomic(verifC04DPUBRange) }
+
+// IDENTIFY option ranges, for EVERY value: heartbeat_interval (-1 off, 0 default, else 1000 ms ..
+// max-heartbeat-interval), output_buffer_size (-1 off, 0 default, else 64 .. max-output-buffer-size),
+// output_buffer_timeout (-1 off, 0 default, else min .. max-output-buffer-timeout), sample_rate
+// (0..99) and msg_timeout (0 default, else 1000 ms .. max-msg-timeout). The real clientV2.Identify
+// accepts exactly the in-range combinations and then holds exactly the requested values.
+func VerifC09_IdentifyOptionRanges() { verifrt.Atomic(verifC09IdentifyRanges) }
+
+func verifC09IdentifyRanges() {
+	o := verifOpts()
+	// the limits are distinct numbers so that no range can be mistaken for another
+	o.MaxHeartbeatInterval = 61 * time.Second
+	o.MaxOutputBufferSize = 4096
+	o.MinOutputBufferTimeout = 25 * time.Millisecond
+	o.MaxOutputBufferTimeout = 31 * time.Second
+	o.MaxMsgTimeout = 16 * time.Minute
+	o.MaxReqTimeout = 2 * time.Hour
+	n := verifShellNSQD(o)
+	cl, _ := verifClient(n, 1, nil)
+	d := identifyDataV2{
+		HeartbeatInterval:   verifrt.Int("heartbeat_interval"),
+		// the buffer size becomes an allocation: boundary values instead of a symbolic length
+		OutputBufferSize:    []int{-2, -1, 0, 63, 64, 4096, 4097}[verifrt.Choice("output_buffer_size", 7)],
+		OutputBufferTimeout: verifrt.Int("output_buffer_timeout"),
+		SampleRate:          verifrt.Int32("sample_rate"),
+		MsgTimeout:          verifrt.Int("msg_timeout"),
+	}
+	preHB, preMT := cl.HeartbeatInterval, cl.MsgTimeout
+	err := cl.Identify(d)
+	ms := func(x time.Duration) int { return int(x / time.Millisecond) }
+	hbOK := d.HeartbeatInterval == -1 || d.HeartbeatInterval == 0 || (d.HeartbeatInterval >= 1000 && d.HeartbeatInterval <= ms(o.MaxHeartbeatInterval))
+	obtOK := d.OutputBufferTimeout == -1 || d.OutputBufferTimeout == 0 || (d.OutputBufferTimeout >= ms(o.MinOutputBufferTimeout) && d.OutputBufferTimeout <= ms(o.MaxOutputBufferTimeout))
+	obsOK := d.OutputBufferSize == -1 || d.OutputBufferSize == 0 || (d.OutputBufferSize >= 64 && int64(d.OutputBufferSize) <= o.MaxOutputBufferSize)
+	srOK := d.SampleRate >= 0 && d.SampleRate <= 99
+	mtOK := d.MsgTimeout == 0 || (d.MsgTimeout >= 1000 && d.MsgTimeout <= ms(o.MaxMsgTimeout))
+	allOK := hbOK && obtOK && obsOK && srOK && mtOK
+	verifrt.Assert((err == nil) == allOK, "identify-accepts-exactly-the-in-range-options")
+	if err == nil {
+		switch {
+		case d.HeartbeatInterval == -1:
+			verifrt.Assert(cl.HeartbeatInterval == 0, "heartbeat-disabled")
+		case d.HeartbeatInterval == 0:
+			verifrt.Assert(cl.HeartbeatInterval == preHB, "heartbeat-default-kept")
+		default:
+			verifrt.Assert(cl.HeartbeatInterval == time.Duration(d.HeartbeatInterval)*time.Millisecond, "heartbeat-as-requested")
+		}
+		if d.MsgTimeout == 0 {
+			verifrt.Assert(cl.MsgTimeout == preMT, "msg-timeout-default-kept")
+		} else {
+			verifrt.Assert(cl.MsgTimeout == time.Duration(d.MsgTimeout)*time.Millisecond, "msg-timeout-as-requested")
+			verifrt.Assert(cl.MsgTimeout <= o.MaxMsgTimeout, "msg-timeout-never-above-max-msg-timeout")
+		}
+		verifrt.Assert(cl.SampleRate == d.SampleRate, "sample-rate-as-requested")
+		verifrt.Reach("identify-accepted-with-custom-msg-timeout", d.MsgTimeout > 1000)
+	}
+	verifrt.Reach("identify-refused-msg-timeout-above-max", !mtOK && hbOK && obtOK && obsOK && srOK)
+}
+
+// Message ids in FIN / REQ / TOUCH are exactly 16 bytes: any other length (shorter, or a held id
+// with extra bytes appended) is the fatal E_INVALID and changes nothing - in particular a command
+// whose id merely STARTS with the id of a held message does not act on that message.
+func VerifC09_MessageIDLength() { verifrt.Atomic(verifC09IDLength) }
+
+func verifC09IDLength() {
+	o := verifOpts()
+	verifConcreteIDs, verifIDSeq = true, 0
+	st := verifNewChan(o, "ch")
+	cl := st.addClient(1)
+	st.populate(1, 0, 0, 0, 1)
+	held := st.inFlight[0]
+	n := 12 + verifrt.Choice("id-length", 9) // 12..20 bytes
+	id := make([]byte, n)
+	for i := range id {
+		if i < 16 {
+			id[i] = held.ID[i] // a prefix of / the held id ...
+		} else {
+			id[i] = verifrt.Byte("extra") // ... followed by arbitrary bytes
+		}
+	}
+	kw := []string{"FIN", "REQ", "TOUCH"}[verifrt.Choice("kw", 3)]
+	params := [][]byte{[]byte(kw), id}
+	if kw == "REQ" {
+		params = append(params, []byte("0"))
+	}
+	prePri, preCount := held.pri, cl.InFlightCount
+	p := &protocolV2{nsqd: st.n}
+	_, err := p.Exec(cl, params)
+	if n == 16 {
+		verifrt.Assert(err == nil, "well-formed-answer-for-a-held-message-is-accepted")
+		verifrt.Reach("exact-id-accepted", true)
+		return
+	}
+	code, fatal, _ := verifErr(err)
+	verifrt.Assert(fatal && code == "E_INVALID", "wrong-length-message-id-is-fatal-E_INVALID")
+	w := st.locate(held.ID)
+	verifrt.Assert(w.inFlight == 1 && w.heap == 1 && w.total() == 1 && held.pri == prePri && cl.InFlightCount == preCount, "wrong-length-message-id-changes-nothing")
+	verifrt.Reach("overlong-id-refused", n > 16)
+	verifrt.Reach("short-id-refused", n < 16)
+}
